@@ -376,6 +376,35 @@ def r5_every_response_stamped(ctx):
                 if recv.has_call(r"Response::<T>::headers_mut$") and (recv.locals() & src):
                     same = True
         ctx.check(R, "ok-exit-stamped", dom and same, "Ok(response) is dominated by insert(x-request-id)=%s on the same response=%s (an entry()/or_insert or conditional stamp would let a handler-supplied value survive)" % (dom, same), (hb, b))
+    # Added after adversary change C13-J (`return handler.handle_request(..).await;` in the CancelOnDisconnect arm: the handler's whole
+    # Result became the return value, so its Ok responses left without passing the stamp): every value the return place can hold is an
+    # Ok(..) built here (checked above), an Err(..) built here, or the residual of a `?` -- never a Result produced elsewhere and
+    # returned whole
+    whole = []
+    seen, work = set(), [0]
+    reach = hb.reachable(0)
+    while work:
+        l = work.pop()
+        if l in seen:
+            continue
+        seen.add(l)
+        for dbb, kind, node in hb.defs().get(l, []):
+            if dbb not in reach or hb.blocks[dbb]["cleanup"]:
+                continue
+            if kind == "call":
+                if not re.search(r"ops::FromResidual::from_residual$", node.get("callee") or ""):
+                    whole.append((dbb, node.get("callee") or "<indirect call>"))
+            elif kind == "assign" and not node["pl"]["p"]:
+                rv = node["rv"]
+                if rv["rv"] == "agg" and rv.get("adt") == "std::result::Result":
+                    continue
+                src = operand_local(rv["op"]) if rv["rv"] == "use" and rv["op"].get("k") in ("move", "copy") and not rv["op"]["pl"]["p"] else None
+                if src is not None:
+                    work.append(src)
+                else:
+                    whole.append((dbb, "a value that is not built here as Ok(..)/Err(..)"))
+    ctx.check(R, "no-result-returned-whole", not whole, "Results that reach the return place of http_request_handle without being taken apart (their Ok responses would bypass the stamp): %s"
+              % (sorted(set(w[1] for w in whole)) or "none"), (hb, whole[0][0] if whole else 0))
     # normalised view: `self.into_result().map_or_else(|e| .., |rsp| ..)`, a `match self`, and helpers holding one arm each are one program
     he = ctx.need_fn(ctx.dsn, R, r"^handler::HandlerError::into_response$")
     sw = [(b, t) for b, t in he.switches() if he.switch_on(b)["kind"] == "discr" and he.switch_on(b)["adt"].endswith("HandlerError")]
